@@ -25,6 +25,11 @@ ASSUMPTIONS = ["bases passed as numpy arrays of single-character strings (the do
                "tail negative batch of the shared-permutation configuration (no bases, equal sizes) may have r rows"]
 
 
+# (N, B) with N an exact multiple of B for which N * (1.0 / B) rounds just below the integer N / B: batch counts must come from integer
+# arithmetic (or a correctly rounded division), not from a multiplication by a rounded reciprocal
+RECIPROCAL_PITFALLS = [(m * B, B) for B in range(2, 401) for m in range(1, 8) if int((m * B) * (1.0 / B)) != m and m * B <= 400]
+
+
 @st.composite
 def runs(draw, tier):
     with_bases = draw(st.booleans())
@@ -32,11 +37,17 @@ def runs(draw, tier):
     n = draw(st.integers(2, 5 if t != "density" else 4))
     big = draw(st.integers(0, 24)) == 0
     N = (draw(st.integers(101, 260)) if draw(st.booleans()) else draw(st.integers(1025, 1200))) if big else draw(st.integers(1, 12))     # big: more rows than the default batch size of 100 / than 1024
+    pitfall = None
+    if not big and draw(st.integers(0, 24)) == 0:
+        pitfall = draw(st.sampled_from(RECIPROCAL_PITFALLS))
+        N = pitfall[0]
     idx = draw(st.lists(st.integers(0, 2 ** n - 1), min_size=N, max_size=N))
     if N >= 2 and draw(st.booleans()):
         j = draw(st.integers(1, N - 1))
         idx[j] = idx[0]                      # forced duplicate row
-    if big:
+    if pitfall:
+        pbs, ep = pitfall[1], draw(st.integers(1, 2))
+    elif big:
         pbs, ep = draw(st.sampled_from([None, None, 64, 100, 128, 500])), draw(st.integers(1, 3))     # None = the library's default (100)
     elif N >= 3 and draw(st.integers(0, 2)) > 0:     # construct the tail-batch class (N = mB + r) instead of hoping for it
         pbs = draw(st.sampled_from([b for b in range(2, N) if N % b] or [N + 1]))
@@ -162,6 +173,27 @@ def check(c):
     if isinstance(data, torch.Tensor):
         dp = data.untyped_storage().data_ptr()
         require(all(b["pos_ptr"] != dp and b["neg_ptr"] != dp for b in log), "data-aliased", "a batch aliases the caller's data tensor")
+    if bases is not None and N >= 2 and not diverged[0]:
+        # a second training run in which the caller re-uses the SAME bases array object, refilled in place (rows rotated by one, the data
+        # rotated with them): the pairing and the admissible negative-phase rows are those of the array's current contents
+        rows2 = rows[-1:] + rows[:-1]
+        bases[:] = np.roll(bases, 1, axis=0)
+        b2list = [tuple(x) for x in bases.tolist()]
+        data2 = torch.tensor(rows2, dtype=torch.double)
+        del log[:]
+        del epochs[:]
+        state.fit(data2, **dict(kw, epochs=1))
+        if not diverged[0]:
+            pairs2 = Counter((tuple(r), b2list[i]) for i, r in enumerate(rows2))
+            adm2 = {tuple(r) for i, r in enumerate(rows2) if set(b2list[i]) == {"Z"}}
+            got2 = Counter()
+            for b in log:
+                for i in range(b["pos"].shape[0]):
+                    got2[(tuple(int(x) for x in b["pos"][i].tolist()), tuple(b["bases"][i]))] += 1
+                for i in range(int(b["neg"].shape[0])):
+                    r = tuple(int(x) for x in b["neg"][i].tolist())
+                    require(r in adm2, "second-run:neg-row-not-admissible", "second run with the bases array refilled in place: a negative-phase chain was started from a row that is not a reference-basis row of the CURRENT data", row=list(r))
+            require(got2 == pairs2, "second-run:epoch-multiset", "second run with the bases array refilled in place: the (sample, basis) pairs of the epoch are not the current input pairs")
     tail = N % B != 0 and N > B
     nt = tail and c["epochs"] >= 2 and (bases is None or len(set(c["bases"])) >= 2)
     return {"nontrivial": nt, "labels": [f"type={t}", f"form={c['form']}"] + (["N<B"] if N < B else ["N=mB"] if N % B == 0 else ["N=mB+r"]) +
